@@ -408,17 +408,29 @@ class Runner:
                 # turn a 1e-9 difference in a near-zero gradient into an O(lr) difference of that one parameter.
                 # Noise of this kind touches few entries; a semantic influence (other random draws, state fed
                 # back) moves most of them.  Judge the MEDIAN relative difference over all parameters.
-                la, lb = array_leaves(out), array_leaves(base)
-                close = len(la) == len(lb) and all(x.shape == y.shape for x, y in zip(la, lb))
-                if close:
-                    fl = [(x.astype(np.float64).ravel(), y.astype(np.float64).ravel()) for x, y in zip(la, lb) if x.dtype.kind == "f"]
-                    rel = np.concatenate([np.abs(x - y) / (np.abs(y) + 1e-3) for x, y in fl]) if fl else np.zeros(1)
-                    ints_same = all(np.array_equal(x, y) for x, y in zip(la, lb) if x.dtype.kind != "f")
-                    close = ints_same and float(np.median(rel)) <= 1e-6 and float(np.mean(rel > 1e-4)) <= 0.2
+                close = self._noise_close(array_leaves(out), array_leaves(base))
                 if close:
                     res.probes["observer_equal_only_to_1e-6"] += 1
                 else:
-                    res.fail("C11", "observer_free_equal", f"observer_changes_trained_policy:{cls['observer']}", mode=mode)
+                    # A 1-ulp difference can flip one sampled action (probability ~1e-7 per draw) and the runs then
+                    # diverge macroscopically without any semantic influence of the observer.  Such flips are
+                    # independent across keys, a semantic influence is not: confirm with two further keys.
+                    confirmed = 0
+                    for k2 in (plan["learn_key"] ^ 0x33CC33, plan["learn_key"] ^ 0x1234567):
+                        b2 = self.algo.learn(env, policy, total, key=jr.key(k2))
+                        SCHED.reset(mode, None)
+                        with contextlib.redirect_stdout(sink):
+                            o2 = self.algo.learn(env, policy, total, key=jr.key(k2), callback=self.observer)
+                            jax.block_until_ready(o2)
+                            jax.effects_barrier()
+                        if cls["observer"] == "video":
+                            self.observer._video_executor.shutdown(wait=True)
+                        if not self._noise_close(array_leaves(o2), array_leaves(b2)):
+                            confirmed += 1
+                    if confirmed == 2:
+                        res.fail("C11", "observer_free_equal", f"observer_changes_trained_policy:{cls['observer']}", mode=mode)
+                    else:
+                        res.probes["observer_divergence_not_confirmed_on_other_keys"] += 1
             else:
                 res.ok("C11", "observer_free_equal")
         # ---- C10 / C19: records
@@ -481,6 +493,26 @@ class Runner:
                         res.fail("C11", "observer_free_equal", f"trained_policy_depends_on_video_schedule:{mode}")
                     else:
                         res.ok("C19", "video_does_not_disturb")
+
+    @staticmethod
+    def _noise_close(la, lb) -> bool:
+        """Equal up to floating-point re-association noise (median relative difference <= 1e-6, at most a fifth
+        of the entries off by more than 1e-4, identical integer leaves and inf/nan patterns)."""
+        if len(la) != len(lb) or any(x.shape != y.shape for x, y in zip(la, lb)):
+            return False
+        parts = []
+        for x, y in zip(la, lb):
+            if x.dtype.kind != "f":
+                if not np.array_equal(x, y):
+                    return False
+                continue
+            x, y = x.astype(np.float64).ravel(), y.astype(np.float64).ravel()
+            fin = np.isfinite(x) & np.isfinite(y)
+            if not np.array_equal(np.where(fin, 0.0, x), np.where(fin, 0.0, y), equal_nan=True):
+                return False
+            parts.append(np.abs(x[fin] - y[fin]) / (np.abs(y[fin]) + 1e-3))
+        rel = np.concatenate(parts) if parts and sum(p.size for p in parts) else np.zeros(1)
+        return float(np.median(rel)) <= 1e-6 and float(np.mean(rel > 1e-4)) <= 0.2
 
     def _fresh_process(self, plan) -> str | None:
         env = dict(os.environ)
